@@ -682,6 +682,12 @@ func (r *plRun) wrapHandlers() {
 // through the public methods of util.ChannelMapping for every pair of channel names of the scenario) is recorded, so
 // that the C16 oracle sees every assignment that ever existed, not only the final table.
 func (r *plRun) pt(key, label string, free bool) {
+	r.snapMapping()
+	r.ctl.Point(key, label, free)
+}
+
+// snapMapping records the channel assignment as util.ChannelMapping reports it now.
+func (r *plRun) snapMapping() {
 	if r.sc.WatchMapping && r.mgr != nil {
 		srcs, tgts := r.sc.physChannels()
 		snap := map[string]string{}
@@ -701,7 +707,6 @@ func (r *plRun) pt(key, label string, free bool) {
 		r.mapSnaps = append(r.mapSnaps, snap)
 		r.hmu.Unlock()
 	}
-	r.ctl.Point(key, label, free)
 }
 
 type plSched struct{ r *plRun }
